@@ -34,9 +34,26 @@ var c17flags = [...]POptFlags{
 	6: POptParamSemiSepF | POptTokQmTermF,
 }
 
-func H_C17_tok(t, w, fs int) {
+func H_C17_tok(t, w, fs int) { c17tok(t, w, fs, false) }
+
+// H_C17_tok_chunk: the same loop over an input that arrives in two pieces
+// (every cut, chosen symbolically): the call that asks for more bytes is
+// repeated with the whole input from the offset it returned. Only for option
+// sets without the end-of-input option.
+func H_C17_tok_chunk(t, w, fs int) {
+	if c17tok(t, w, fs, true) > 0 {
+		vReach("resumed")
+	}
+}
+
+// c17tok returns the number of resumed calls.
+func c17tok(t, w, fs int, chunked bool) int {
 	buf := vTpl(t, w)
 	n := len(buf)
+	lim := n
+	if chunked {
+		lim = 1 + vChoice(n-1)
+	}
 	flags := c17flags[fs]
 	uriParam := flags&POptTokURIParamF != 0
 	sep := byte(';')
@@ -53,20 +70,35 @@ func H_C17_tok(t, w, fs int) {
 	offs := 0
 	covered := 0 // everything before this index has been accounted for
 	cnt := 0
+	resumed := false
+	nres := 0
+	pstart := 0 // where the parsing of the current parameter started
 	for {
-		prm.Reset()
-		o, e := ParseTokenParam(buf, offs, &prm, flags)
+		if !resumed {
+			prm.Reset()
+			pstart = offs
+		}
+		resumed = false
+		o, e := ParseTokenParam(buf[:lim], offs, &prm, flags)
 		vObs("o", o)
 		vObs("e", int(e))
+		if e == ErrHdrMoreBytes && lim < n {
+			vAssert("offset-in-range", o >= offs && o <= lim)
+			lim = n
+			offs = o
+			resumed = true
+			nres++
+			continue
+		}
 		if e != ErrHdrOk && e != ErrHdrEOH && e != ErrHdrMoreValues {
 			vReach("not-a-list")
-			return
+			return nres
 		}
 		vAssert("offset-in-range", o >= offs && o <= n)
 		if !prm.Empty() || prm.Name.Len > 0 {
 			cnt++
 			nm, vl, all := prm.Name, prm.Val, prm.All
-			vAssert("name-nonempty-inside-all", nm.Len > 0 && pfSub(nm, all) && pfIn(all, offs, n))
+			vAssert("name-nonempty-inside-all", nm.Len > 0 && pfSub(nm, all) && pfIn(all, pstart, n))
 			for i := int(nm.Offs); i < pfEnd(nm); i++ {
 				vAssert("name-charset", refTokChar(buf[i], uriParam))
 			}
@@ -86,6 +118,16 @@ func H_C17_tok(t, w, fs int) {
 				vAssert("exactly-one-equals", eqs == 1)
 				if buf[vl.Offs] == '"' {
 					vAssert("quoted-value-complete", vl.Len >= 2 && buf[pfEnd(vl)-1] == '"')
+					// escapes honoured: the value ends at the first quote
+					// that is not preceded by an (unescaped) backslash
+					q := int(vl.Offs) + 1
+					for q < pfEnd(vl)-1 && buf[q] != '"' {
+						if buf[q] == '\\' {
+							q++
+						}
+						q++
+					}
+					vAssert("quoted-value-ends-at-first-unescaped-quote", q == pfEnd(vl)-1)
 				} else {
 					for i := int(vl.Offs); i < pfEnd(vl); i++ {
 						vAssert("value-charset", refTokChar(buf[i], uriParam))
@@ -111,7 +153,7 @@ func H_C17_tok(t, w, fs int) {
 			vAssert("only-lws-and-separators-skipped", vOr(vOr(isLWSByte(buf[i]), buf[i] == sep), buf[i] == '='))
 		}
 		vReach("list-end")
-		return
+		return nres
 	}
 }
 
